@@ -199,6 +199,10 @@ def run(chk, tmp, replay=None):
     res = core.tlc(os.path.join(tmp, "live"), "CacheStore.tla", "c.cfg", timeout=900, files={"c.cfg": cfg})
     core.tlc_must_pass(res, "CacheStore liveness")
     chk.add_tlc("CacheStore liveness: EventuallySucceeds (the next builds re-execute what was lost)", res)
+    # unbounded in crashes, faults and restarted builds: the inductive invariant of the store protocol, checked by the TLA+ proof system
+    n, wall = core.tlapm(os.path.join(tmp, "proof"), "CacheStoreProof.tla")
+    chk.cov["proofs"] = [{"module": "CacheStoreProof.tla", "theorem": "Spec => [](BlobIntegrity /\\ NoTornResult /\\ ResultClosure) with Atomic = TRUE, any MaxCrashes and MaxFaults",
+                          "obligations_proved": n, "wall_s": wall, "tool": "tlapm (SMT, Zenon, Isabelle, PTL back ends)"}]
     grog = core.build_grog(tmp)
     hbin = core.build_harness(tmp)
     # the from-scratch outputs, per algorithm, for the fresh and the edited sources
